@@ -25,6 +25,7 @@ import (
 	"unicode/utf8"
 
 	"github.com/fatih/color"
+	"github.com/rhysd/actionlint/verifshim/vexec"
 )
 
 const c16Noisy = `on:
@@ -210,6 +211,9 @@ func c16CheckRenderAt(r *vReport, what, path, src string, proj *Project, replay 
 		var out bytes.Buffer
 		opts := m.opts
 		opts.WorkingDir = "/"
+		if c16ExtraOpts != nil {
+			c16ExtraOpts(&opts)
+		}
 		l, err := NewLinter(&out, &opts)
 		if err != nil {
 			r.HarnessError("NewLinter for mode %s: %v", m.name, err)
@@ -402,7 +406,7 @@ func TestVerifC16(t *testing.T) {
 	r.Bounds["snippet_source_length"] = maxLen
 	r.Bounds["payloads"] = len(c16Payloads)
 	r.Bounds["modes"] = len(c16Modes)
-	r.Extra["rule"] = "(a) every value and key position of 4 clean seeds + 1 noisy seed (type-echoing diagnostics) x 12 hostile payloads in double-quoted YAML; each diagnostic list rendered in 6 modes (default, -oneline, both also with colour, {{json .}}, custom template) and parsed back with the shipped problem-matcher regexp / JSON; the same payloads at every value and key of a local action metadata file and of a local reusable workflow file (as string, sequence, mapping; one position and every pair of positions), rendering the workflow that uses them; (b) PrettyPrint and GetTemplateFields over all sources <= L over {a, space, tab, LF, é, あ, CR, U+2028} (lines as the YAML parser counts them) x line -1..4 x column -1..7 against a reference. class = (kind, message skeleton) | snippet outcome; non-trivial = at least one diagnostic"
+	r.Extra["rule"] = "(a) every value and key position of 4 clean seeds + 1 noisy seed (type-echoing diagnostics) x 12 hostile payloads in double-quoted YAML; each diagnostic list rendered in 6 modes (default, -oneline, both also with colour, {{json .}}, custom template) and parsed back with the shipped problem-matcher regexp / JSON; the same payloads at every value and key of a local action metadata file and of a local reusable workflow file (as string, sequence, mapping; one position and every pair of positions), rendering the workflow that uses them; scripted shellcheck / pyflakes answering with 10 issue texts (line breaks of every kind, brackets, escape characters); (b) PrettyPrint and GetTemplateFields over all sources <= L over {a, space, tab, LF, é, あ, CR, U+2028} (lines as the YAML parser counts them) x line -1..4 x column -1..7 against a reference. class = (kind, message skeleton) | snippet outcome; non-trivial = at least one diagnostic"
 	r.Extra["assumptions"] = []string{"the matcher's JavaScript regexp is translated to Go regexp syntax with '.' narrowed to JavaScript's meaning (no LF, CR, U+2028, U+2029)", "caret placement is not compared when the column splits a multi-byte character; a tab before the caret is expected to be repeated in the caret line"}
 
 	if raw := vReplayInput(); raw != nil {
@@ -433,6 +437,11 @@ func TestVerifC16(t *testing.T) {
 		if strings.HasPrefix(rp.What, "LintFiles") {
 			c16MultiFile(t, r)
 			c16MultiFile(t, r)
+			return
+		}
+		if strings.HasPrefix(rp.What, "tools answering") {
+			c16Tools(r)
+			c16Tools(r)
 			return
 		}
 		for k := 0; k < 2; k++ {
@@ -540,6 +549,7 @@ func TestVerifC16(t *testing.T) {
 	// ---- (a3) several files in one LintFiles call: what is printed is what is returned, in that order
 	if r.Shard == 0 {
 		c16MultiFile(t, r)
+		c16Tools(r)
 	}
 
 	// ---- (a4) second input channel: local action metadata and local reusable workflow files
@@ -894,6 +904,34 @@ func c16Caret(r *vReport) {
 // c16MultiFile lints every ordering of three workflow files (names chosen so that argument order,
 // byte order and case-folded order all differ) with LintFiles in -oneline and {{json .}} mode and
 // compares the printed sequence with the returned one.
+// c16ExtraOpts, when set, adjusts the options of every Linter made by c16CheckRenderAt.
+var c16ExtraOpts func(*LinterOptions)
+
+// c16Tools: a third source of message text - what shellcheck / pyflakes print. Scripted tools answer
+// with issue texts that hold line breaks of every kind, brackets and escape characters; the
+// diagnostics built from them are rendered in all modes like any other.
+func c16Tools(r *vReport) {
+	src := "on: push\njobs:\n  a:\n    runs-on: ubuntu-latest\n    steps:\n      - run: echo $FOO\n      - run: print(x)\n        shell: python\n"
+	texts := []string{"first\nsecond", "first\r\nsecond", "first\rsecond", "a\u2028b", "a\u2029b", "x [y] z", "tab\there", "esc\x1bX", "trailing\n", "é あ"} // (a text that ENDS in a colour sequence cannot be told from colouring by the matcher: not claimed)
+	vexec.LookPathFn = func(file string) (string, error) { return "/fake/" + file, nil }
+	c16ExtraOpts = func(o *LinterOptions) { o.Shellcheck, o.Pyflakes = "shellcheck", "pyflakes" }
+	defer func() { vexec.LookPathFn, vexec.Handler, c16ExtraOpts = nil, nil, nil }()
+	for _, tx := range texts {
+		tx := tx
+		vexec.Handler = func(name string, args []string) vexec.Outcome {
+			if filepath.Base(name) == "shellcheck" {
+				b, _ := json.Marshal([]map[string]any{{"file": "-", "line": 2, "endLine": 2, "column": 6, "endColumn": 10, "level": "info", "code": 2086, "message": tx + "."}})
+				return vexec.Outcome{ExitCode: 1, Stdout: b}
+			}
+			// pyflakes prints one issue per line: a line break inside its text cannot be told from the
+			// end of the issue; the other characters are taken over
+			one := strings.NewReplacer("\n", " ", "\r", " ").Replace(tx)
+			return vexec.Outcome{ExitCode: 1, Stdout: []byte("<stdin>:1:7: " + one + "\n")}
+		}
+		c16CheckRender(r, fmt.Sprintf("tools answering %q", tx), src)
+	}
+}
+
 func c16MultiFile(t *testing.T, r *vReport) {
 	dir := vTempDir(t, "c16-")
 	files := map[string]string{
